@@ -77,12 +77,43 @@ def gen_block(r):
     return ("block", mbt, poisoned, pre)
 
 
+def gen_free(r):
+    """two or three participants, discovery, optional endpoints with deadlines, long advances
+    (lease expiry of a participant whose announcements are never delivered again)"""
+    ops = ["P 0", "P 0"]
+    if r.random() < 0.5:
+        ops.append("P 0")
+    withep = r.random() < 0.6
+    if withep:
+        d = r.choice([50 * MS, 100 * MS, 70 * MS])
+        ops += ["T 0 t", "T 1 t", "PUB 0", "SUB 1", "W 0 0 rel=1 dl=%d ls=%d" % (d, r.choice([60 * MS, 300 * MS])),
+                "R 0 1 rel=1 dl=%d" % d]
+    ops.append("net")
+    for _ in range(r.randint(2, 6)):
+        k = r.random()
+        if k < 0.5:
+            ops.append("adv %d" % r.choice([10 * MS, 50 * MS, 123456789, NS, 3 * NS]))
+        elif k < 0.7:
+            ops.append("net")
+        elif withep:
+            ops.append("w 0 %d 8 1" % r.choice([1, 2]))
+            if r.random() < 0.7:
+                ops.append("net")
+    if r.random() < 0.4:
+        # no more deliveries: the leases (100 s) of the discovered participants run out
+        ops.append("adv %d" % (100 * NS + r.choice([-200 * MS, 0, 300 * MS])))
+        ops.append("adv %d" % (300 * MS))
+    return ("free", tuple(ops))
+
+
 def gen(r, tier):
-    n = {"quick": 260, "search": 1500, "thorough": 5000}[tier]
+    n = {"quick": 200, "search": 1000, "thorough": 3000}[tier]
     cases = []
     nb = n // 8
     for _ in range(nb):
         cases.append(gen_block(r))
+    for _ in range(n // 10):
+        cases.append(gen_free(r))
     while len(cases) < n:
         cases.append(gen_sim(r, tier != "quick"))
     return cases
@@ -97,6 +128,8 @@ def corpus():
         ("sim", 5000, 1, (("W", 100 * MS, 120 * MS), ("adv", 300 * MS), ("w", 0, 1, T0 + 200 * MS), ("adv", 300 * MS))),
         ("block", 120 * MS, False, 0),
         ("block", 120 * MS, True, 0),
+        # lease expiry of discovered participants (time_until_stale_participant reaches zero)
+        ("free", ("P 0", "P 0", "net", "adv 99800000000", "adv 300000000")),
     ]
 
 
@@ -110,6 +143,8 @@ def kvs(dl, ls):
 
 
 def case_line(c):
+    if c[0] == "free":
+        return " ; ".join(("cfg trace=1",) + c[1])
     if c[0] == "sim":
         _, ann, nw, ops = c
         parts = ["cfg trace=1 ann=%d" % ann, "P 0", "T 0 t", "PUB 0"]
@@ -140,6 +175,8 @@ def case_line(c):
 def parse_line(line):
     # replay: rebuild the case from the scenario line
     ops = [o.strip() for o in line.split(";")]
+    if ops[0] == "cfg trace=1" and not any(o.startswith("wb ") for o in ops):
+        return ("free", tuple(ops[1:]))
     if len(ops) > 2 and ops[2] == "P 0":
         mbt = int([t for t in ops[8].split() if t.startswith("mbt=")][0][4:])
         poisoned = any(o.startswith("w 1 ") for o in ops)
@@ -190,6 +227,18 @@ def case_term(c, out):
     so = split_out(out)
     if so is None:
         return None
+    if c[0] == "free":
+        ops = c[1]
+        so = so[1:]
+        if len(so) != len(ops):
+            return None
+        terms = []
+        for o, (res, ds, wsig, rsig) in zip(ops, so):
+            if res.endswith("STUCK") or " E" in res and not res.startswith(("t ", "r ")):
+                return None
+            t = "SAdv %s" % o.split()[1] if o.startswith("adv ") else "SQuery"
+            terms.append("(%s, mkObs %s %s %s 0)" % (t, pairs(ds), pairs(wsig), pairs(rsig)))
+        return "CFree %s" % clist(terms)
     if c[0] == "sim":
         _, ann, nw, ops = c
         so = so[4:]
